@@ -125,6 +125,26 @@ Theorem C12_sign_flip : forall cfg h, c_what cfg = Best ->
   end.
 Proof. exact best_sign_flip. Qed.
 
+(* Any affine objective transform (user objective = a * optimizer objective + b; sign flip: a = -1, scaling: a > 0).
+   If every delivered candidate is PAIRED -- its user-domain result is the back-transform of the optimizer-domain
+   result it is delivered with, which is what Chk_C12.paired_ok evaluates on every real event -- then the objective
+   the tracker compared for the held result is exactly the forward transform of the objective the REPORTED (user)
+   result shows, it is the lowest in the optimizer domain, and so the reported objective is the lowest (a > 0) resp.
+   the highest (a < 0) of all candidates' reported objectives: "lowest in the optimizer domain" is a statement about
+   the result Plan.get returns.  (Generalises C12_sign_flip; not a restatement: it combines the argmin invariant
+   with the pairing hypothesis, and fails without it -- seeded change C12_k.) *)
+Theorem C12_reported_is_optimum_under_pairing : forall cfg h a b, c_what cfg = Best ->
+  (forall p, In p (delivered cfg h) -> candidate (c_tol cfg) p = true -> Paired a b p) ->
+  match stored (track cfg init (map Emit h)) with
+  | None => forall p, In p (delivered cfg h) -> candidate (c_tol cfg) p = false
+  | Some (id, u) => exists p, In p (delivered cfg h) /\ id = i_id (fst p) /\ u = i_u (fst p) /\
+      candidate (c_tol cfg) p = true /\ oval u == a * oval (snd p) + b /\
+      (forall q, In q (delivered cfg h) -> candidate (c_tol cfg) q = true -> oval (snd p) <= oval (snd q)) /\
+      (0 < a -> forall q, In q (delivered cfg h) -> candidate (c_tol cfg) q = true -> oval u <= uval q) /\
+      (a < 0 -> forall q, In q (delivered cfg h) -> candidate (c_tol cfg) q = true -> uval q <= oval u)
+  end.
+Proof. exact best_affine. Qed.
+
 (* Plan.set(tracker, "results", None) makes the tracker forget everything delivered before. *)
 Theorem C12_reset : forall cfg st h1 h2,
   stored (track cfg st (h1 ++ Put None :: map Emit h2)) = stored (track cfg init (map Emit h2)).
@@ -193,6 +213,7 @@ Print Assumptions C12_best_monotone.
 Print Assumptions C12_never_blocked.
 Print Assumptions C12_last.
 Print Assumptions C12_sign_flip.
+Print Assumptions C12_reported_is_optimum_under_pairing.
 Print Assumptions C12_reset.
 Print Assumptions C12_basic_optimizer.
 Print Assumptions C12_trace_is_track.
